@@ -49,6 +49,12 @@ def lookupP (below above : α → Bool) (l : List α) : Lk → Out α
   | .upperBound => .num (upperBoundP above l)
   | .equalRange => .pair (lowerBoundP below l) (upperBoundP above l)
 
+/-- answers for a key of another type ([associative.reqmts] `a_tran.count(ke)`: *the number of* elements with key
+    equivalent to `ke`, which may exceed 1 although the keys of the set are unique) -/
+def hlookupP (below above : α → Bool) (l : List α) : Lk → Out α
+  | .count => .num (l.countP (equivP below above))
+  | w => lookupP below above l w
+
 /-- `insert`/`emplace`: an equivalent element exists → `(its position, false)`, set unchanged;
     otherwise, room left → the key is placed after all elements ordered before it and before all
     elements ordered after it, `(its position, true)`; otherwise `full`, set unchanged. -/
@@ -112,7 +118,7 @@ def step (isSet : Bool) (lt : α → α → Bool) (h : Het α κ) (cap : Nat) (s
   | .extract => if isSet then (s, .unit) else ({ s with cur := [] }, .elems s.cur)
   | .replace c => if isSet then (s, .unit) else ({ s with cur := c }, .unit)
   | .lookup w k => (s, lookupP (fun x => lt x k) (fun x => lt k x) s.cur w)
-  | .hlookup w k => (s, lookupP (fun x => h.ek x k) (fun x => h.ke k x) s.cur w)
+  | .hlookup w k => (s, hlookupP (fun x => h.ek x k) (fun x => h.ke k x) s.cur w)
   | .riter => (s, .elems s.cur.reverse)
 
 def run (isSet : Bool) (lt : α → α → Bool) (h : Het α κ) (cap : Nat) : St α → List (Op α κ) → St α × List (Out α)
